@@ -54,6 +54,13 @@ UpdateOut(s, k, v, d) ==
 DeleteOut(s, k) ==
     IF SureLive(s, k) THEN { O(Remove(s, {k}), R(TRUE)) }
     ELSE { O(Remove(s, {k}), R(TRUE)), O(Remove(s, {k}), R(FALSE)) }
+\* The statement does not say what Delete answers for a key that is not there, so either answer is accepted
+\* above.  Linearizability (C02) however is relative to what the code answers when run one call at a time: the
+\* concurrent driver asks the code under test once, sequentially, what Delete of a missing key returns and
+\* passes the answer along as a second argument (0: no error, 1: an error); every Delete of a key that is not
+\* in the map then has to give that same answer.
+DeleteOutCal(s, a) ==
+    IF Len(a) >= 2 /\ ~Has(s, a[1]) THEN { O(s, R(a[2] = 0)) } ELSE DeleteOut(s, a[1])
 
 \* DeleteExpired removes exactly the expired entries, never one without expiry
 DelExpOut(s) ==
@@ -80,7 +87,7 @@ Out(s, op) ==
     CASE op.n = "new"    -> { O([items |-> NoMap, now |-> 0, def |-> op.a[1], intv |-> op.a[2]], R(TRUE)) }
       [] op.n = "set"    -> SetOut(s, op.a[1], op.a[2], op.a[3])
       [] op.n = "update" -> UpdateOut(s, op.a[1], op.a[2], op.a[3])
-      [] op.n = "delete" -> DeleteOut(s, op.a[1])
+      [] op.n = "delete" -> DeleteOutCal(s, op.a)
       [] op.n = "flush"  -> { O([s EXCEPT !.items = NoMap], R(TRUE)) }
       [] op.n = "delexp" -> DelExpOut(s)
       [] op.n = "m2c"    -> Fold(s, FALSE, op.a, 2)
